@@ -122,20 +122,25 @@ theorem boundsheet_unknown_state_rejected (off dt : Nat) (us : List Nat) (wide :
 
 /-! ## xls: the globals substream -/
 
-/-- **xls: sheets in stream order.** A globals substream is BOF, any sequence of BoundSheet8 records (each with a
-    32-bit offset inside the stream, any visibility and reserved bits, any sheet type of MS-XLS 2.4.28, a name
-    of up to 255 UTF-16 units in either packing), DATEMODE records and records the loop does not interpret, then
-    EOF and the rest of the stream (which must not begin with a CONTINUE record). `parse_workbook` then reports
-    exactly the declared sheets, in stream order, with their names (UTF-16 decoded, NULs removed), kinds and
-    visibilities, no defined names, and the 1904 flag iff a DATEMODE record carries 1. `pd` (the defined-name
-    formula decoder, C14) is arbitrary. -/
+/-- **xls: sheets and defined names in stream order.** A globals substream is BOF, any sequence of BoundSheet8
+    records (each with a 32-bit offset inside the stream, any visibility and reserved bits, any sheet type of
+    MS-XLS 2.4.28, a name of up to 255 UTF-16 units in either packing), DATEMODE records, Lbl records (name in
+    either packing, any formula bytes the formula decoder `pd` accepts), ExternSheet records and records the
+    loop does not interpret, then EOF and the rest of the stream (which must not begin with a CONTINUE record).
+    `parse_workbook` then reports exactly the declared sheets in stream order with their names (UTF-16 decoded,
+    NULs removed), kinds and visibilities; the defined names in stream order, each with the text of `pd`,
+    prefixed by `<sheet>!` where `pd` found a 3-D reference — the sheet being the `itab_first`-th declared sheet
+    of the referenced XTI entry (`#REF` when the entry or the sheet does not exist); and the 1904 flag iff a
+    DATEMODE record carries 1. `pd` (`parse_defined_names`, C14) is arbitrary. -/
 theorem sheets_in_order_xls (pd : Bytes → Res (Option Nat × Text))
-    (recs : List GRec) (hall : ∀ r ∈ recs, r.ok) (tail : Bytes) (htail : Biff.notCont tail)
+    (recs : List GRec) (hall : ∀ r ∈ recs, r.ok pd) (tail : Bytes) (htail : Biff.notCont tail)
     (hoff : ∀ s ∈ declaredSheets recs, s.offset ≤ (encodeGlobals recs tail).length) :
     parseWorkbookXls pd (encodeGlobals recs tail) =
-      .ok ⟨(declaredSheets recs).map (fun s => s.decoded.2), [], declared1904 recs⟩ := by
+      .ok ⟨(declaredSheets recs).map (fun s => s.decoded.2),
+           (declaredNames pd recs).map (resolveName (declaredXtis recs) ((declaredSheets recs).map XlsSheet.decoded)),
+           declared1904 recs⟩ := by
   obtain ⟨fuel, hf⟩ := encodeGlobals_fuel recs tail
-  have hg := xlsGlobals_encode readUnicodeStringNoCch pd recs hall tail htail fuel
+  have hg := xlsGlobals_encode pd recs hall tail htail fuel
   rw [← hf, foldl_applyRec] at hg
   have := parseWorkbookXlsWith_of_globals readUnicodeStringNoCch pd _ _ hg (by
     intro x hx
@@ -146,9 +151,20 @@ theorem sheets_in_order_xls (pd : Bytes → Res (Option Nat × Text))
   rw [this]
   simp [List.map_map, Function.comp_def]
 
+/-- the defined names alone -/
+theorem defined_names_in_order_xls (pd : Bytes → Res (Option Nat × Text))
+    (recs : List GRec) (hall : ∀ r ∈ recs, r.ok pd) (tail : Bytes) (htail : Biff.notCont tail)
+    (hoff : ∀ s ∈ declaredSheets recs, s.offset ≤ (encodeGlobals recs tail).length) :
+    ∀ wb, parseWorkbookXls pd (encodeGlobals recs tail) = .ok wb →
+      wb.names = (declaredNames pd recs).map (resolveName (declaredXtis recs) ((declaredSheets recs).map XlsSheet.decoded)) := by
+  intro wb h
+  rw [sheets_in_order_xls pd recs hall tail htail hoff] at h
+  cases h
+  rfl
+
 /-- **xls: the date-system flag** read from the globals is the one DATEMODE declares -/
 theorem date1904_flag_xls (pd : Bytes → Res (Option Nat × Text))
-    (recs : List GRec) (hall : ∀ r ∈ recs, r.ok) (tail : Bytes) (htail : Biff.notCont tail)
+    (recs : List GRec) (hall : ∀ r ∈ recs, r.ok pd) (tail : Bytes) (htail : Biff.notCont tail)
     (hoff : ∀ s ∈ declaredSheets recs, s.offset ≤ (encodeGlobals recs tail).length) :
     ∀ wb, parseWorkbookXls pd (encodeGlobals recs tail) = .ok wb → wb.is1904 = declared1904 recs := by
   intro wb h
@@ -156,13 +172,20 @@ theorem date1904_flag_xls (pd : Bytes → Res (Option Nat × Text))
   cases h
   rfl
 
+set_option maxRecDepth 8000 in
 /-- satisfiable: WRITEACCESS noise, DATEMODE 1, a hidden macro sheet stored 16-bit and a very hidden chart sheet
-    stored 8-bit with reserved bits set -/
+    stored 8-bit with reserved bits set, an ExternSheet whose second entry points at the first sheet, a 16-bit
+    defined name "Жы" (the case of ledger D35) whose formula the decoder reads as a reference through XTI 1, and a
+    name without sheet -/
 example :
-    parseWorkbookXls (fun _ => .ok (none, []))
+    parseWorkbookXls (fun rg => .ok (if rg = [1] then (some 1, [36, 65, 36, 49]) else (none, [55])))
       (encodeGlobals [.neutral 0x005C [1, 2, 3], .date 1, .sheet ⟨40, 0, .hidden, 1, [0x416, 0x44B], true⟩,
-                      .neutral 0x0293 [], .sheet ⟨60, 3, .veryHidden, 2, [65, 233], false⟩] []) =
-      .ok ⟨[⟨[0x416, 0x44B], .macroSheet, .hidden⟩, ⟨[65, 233], .chartSheet, .veryHidden⟩], [], true⟩ := by
+                      .neutral 0x0293 [], .sheet ⟨60, 3, .veryHidden, 2, [65, 233], false⟩,
+                      .extern [(0, 1, 1), (0, 0, 0), (0, 0xFFFE, 0xFFFE)],
+                      .lbl [0x416, 0x44B] true 0 [1], .lbl [110] false 0 [2], .lbl [98] false 0 [1]] []) =
+      .ok ⟨[⟨[0x416, 0x44B], .macroSheet, .hidden⟩, ⟨[65, 233], .chartSheet, .veryHidden⟩],
+           [([0x416, 0x44B], [0x416, 0x44B, 33, 36, 65, 36, 49]), ([110], [55]), ([98], [0x416, 0x44B, 33, 36, 65, 36, 49])],
+           true⟩ := by
   decide
 
 /-! ## xlsb: `xl/workbook.bin` -/
@@ -390,7 +413,7 @@ theorem date1904_reaches_cells {α : Type} (wb : Workbook α) (fmt : Option Cell
 
 /-- xls: every date-styled numeric cell of every sheet shows the flag the DATEMODE record declares -/
 theorem date1904_reaches_cells_xls (pd : Bytes → Res (Option Nat × Text))
-    (recs : List GRec) (hall : ∀ r ∈ recs, r.ok) (tail : Bytes) (htail : Biff.notCont tail)
+    (recs : List GRec) (hall : ∀ r ∈ recs, r.ok pd) (tail : Bytes) (htail : Biff.notCont tail)
     (hoff : ∀ s ∈ declaredSheets recs, s.offset ≤ (encodeGlobals recs tail).length)
     (wb : Workbook Text) (h : parseWorkbookXls pd (encodeGlobals recs tail) = .ok wb)
     (fmt : Option CellFormat) (hf : fmt = some .dateTime ∨ fmt = some .timeDelta) (v : UInt64) (i : Int) :
